@@ -34,6 +34,10 @@ class Threads:
         self.cur = None; self.regions = []; self.log_access = log_access
     def install(self, it):
         it.omp_hook = self.fork; it.omp_static_init_hook = self.static_init
+        # the OpenMP runtime queries follow the model: inside a region thread t of T, outside of any region thread 0 of 1
+        it.overrides['omp_get_thread_num'] = lambda it_, a: (self.cur[1] if self.cur else 0)
+        it.overrides['omp_get_num_threads'] = lambda it_, a: (self.T if self.cur else 1)
+        it.overrides['omp_get_max_threads'] = lambda it_, a: self.T
         if self.log_access:
             it.rw = self.rw; it.rw_atomic = self.atomic
     def fork(self, it, micro, args):
@@ -159,13 +163,18 @@ def handler_part(chk, quick):
     # validation
     sc = api.Session(ir, mode='ieee')
     nval = mism = 0
+    native_lost = []
     for n in (1, 2, 3, 4):
         for mask in range(1 << n):
             kind = (mask * 5 + 3) & ((1 << n) - 1)
             r = sc.run('h_c15_handler', [], [n, mask, kind]); q = native.call('h_c15_handler', [], [n, mask, kind])
             nval += 1
             # with several throwing elements the native thread schedule decides which one arrives: compare only the processed flags and the class of outcome
-            if r.status != 'ok' or q.get('status') != 0 or r.iout[2:] != q['i'][2:] or (bin(mask).count('1') <= 1 and r.iout != q['i']) or (mask and q['i'][0] not in (1, 2)):
+            if q.get('status') == 0 and mask and q['i'][0] not in (1, 2) and r.status == 'ok' and r.iout[2:] == q['i'][2:]:
+                # the native (multi-threaded) run lost the exception although the one-thread interpretation delivers it: not a translation
+                # difference but an outcome that depends on the number of threads; the symbolic part below must find it
+                native_lost.append((n, mask, kind, q['i']))
+            elif r.status != 'ok' or q.get('status') != 0 or r.iout[2:] != q['i'][2:] or (bin(mask).count('1') <= 1 and r.iout != q['i']) or (mask and q['i'][0] not in (1, 2)):
                 mism += 1; chk.note('handler validation mismatch n=%d mask=%d: %r / %r' % (n, mask, r.iout, q['i']))
     chk.functions |= sc.functions_called
     native.close()
@@ -205,6 +214,11 @@ def handler_part(chk, quick):
                     chk.violation('C15/handler/exception lost or altered', '%s: throwing elements %r, caller got class %d from element %d, processed flags %r' % (name, thrown, cls, who, ran), {'n': n, 'order': order, 'mask': mk, 'kind': kd, 'iout': r.iout})
             if len(masks_seen) != (1 << n):
                 chk.fail_closed.append('handler n=%d order %r: only %d of %d placements of throwing elements were reached' % (n, order, len(masks_seen), 1 << n))
+    if native_lost:
+        if any(v['key'].startswith('C15/handler') for v in chk.violations):
+            chk.note('native runs of the handler harness lose the exception too: %r' % (native_lost[:4],))
+        else:
+            chk.fail_closed.append('the native multi-threaded handler harness loses a thrown exception (%r) but the symbolic thread model does not' % (native_lost[:3],))
     return nval, mism
 
 def sim_inputs(nc, nsteps, gap, div_cells=(), kinds=None, classes=None):
